@@ -41,7 +41,9 @@ def _jobs(ctx, entries):
             ps = names[lvl]
             start = (k * 3 + rnd.randrange(len(ps))) % len(ps)
             sample = {lvl: [ps[(start + j) % len(ps)] for j in range(2)]}
-            levels = list(RUN.LEVELS)
+            # priority programs at every level; the others at O3 (superset pipeline) and one of O2/Os
+            levels = list(RUN.LEVELS) if e["prio"] == 0 else sorted({"O3", lvl, ["gas", "codesize"][k % 2]}, key=RUN.LEVELS.index)[:2] \
+                if lvl == "O3" else ["O3", lvl]
         jobs.append({"entry": e, "tier": ctx.tier, "seed": ctx.seed, "levels": levels, "skip_sample": sample,
                      "want_snaps": True, "roundtrip_budget": 60 if ctx.tier == "quick" else 10 ** 9,
                      "n_inputs": 10 if ctx.tier == "quick" else 14})
